@@ -220,4 +220,140 @@ theorem allPicks_proj (ts : List STh) : allPicks (ts.map STh.proj) = allPicksT (
   simp only [allPicks, allPicksT, List.flatMap_map]
   rfl
 
+/-! ### every index handed out is read from the ring: linkage of picks and targets -/
+
+/-- an invariant of single operations of syntactic goroutines is an invariant of every schedule -/
+theorem run_syn (Inv : STh → Prop)
+    (hstep : ∀ op rest l s, Inv ⟨op :: rest, l⟩ → Inv ⟨rest, (op.sem s l).2⟩) :
+    ∀ (sch : List Nat) (ts : List STh) (s : TState), (∀ t ∈ ts, Inv t) →
+      ∃ ts' : List STh, (run sch (ts.map STh.toT) s).2 = ts'.map STh.toT ∧ ∀ t ∈ ts', Inv t := by
+  intro sch
+  induction sch with
+  | nil => intro ts s h; exact ⟨ts, rfl, h⟩
+  | cons i sch ih =>
+    intro ts s h
+    simp only [run]
+    cases hget : ts[i]? with
+    | none =>
+      have h1 : stepAt i (ts.map STh.toT) s = (s, ts.map STh.toT) := by
+        unfold stepAt; simp [List.getElem?_map, hget]
+      rw [h1]; exact ih ts s h
+    | some t =>
+      cases hops : t.ops with
+      | nil =>
+        have h1 : stepAt i (ts.map STh.toT) s = (s, ts.map STh.toT) := by
+          unfold stepAt; simp [List.getElem?_map, hget, STh.toT, hops]
+        rw [h1]; exact ih ts s h
+      | cons op rest =>
+        have h1 : stepAt i (ts.map STh.toT) s
+            = ((op.sem s t.loc).1, (ts.set i { ops := rest, loc := (op.sem s t.loc).2 }).map STh.toT) := by
+          unfold stepAt; simp [List.getElem?_map, hget, STh.toT, hops, List.map_set]
+        rw [h1]
+        apply ih
+        intro t' ht'
+        rcases List.mem_or_eq_of_mem_set ht' with h2 | h2
+        · exact h t' h2
+        · subst h2
+          have htm : t ∈ ts := List.mem_of_getElem? hget
+          have hi := h t htm
+          have ht : t = ⟨op :: rest, t.loc⟩ := by
+            cases t with
+            | mk ops loc => simp only at hops; subst hops; rfl
+          rw [ht] at hi
+          exact hstep op rest t.loc s hi
+
+/-- every index the goroutine was handed has been read from the ring, except the one whose read is the very next
+operation -/
+def Linked (t : STh) : Prop :=
+  t.loc.core.dead = false ∧
+  ∃ p : Bool, wfFrom p t.ops = true ∧
+    (p = false → t.loc.core.picks = t.loc.targets.map (·.1)) ∧
+    (p = true → ∃ i, t.loc.core.picks = t.loc.targets.map (·.1) ++ [i])
+
+theorem linked_step (op : TOp) (rest : List TOp) (l : TLocal) (s : TState)
+    (h : Linked ⟨op :: rest, l⟩) : Linked ⟨rest, (op.sem s l).2⟩ := by
+  obtain ⟨hd, p, hwf, h0, h1⟩ := h
+  simp only at hd hwf h0 h1
+  cases op with
+  | core f => cases p <;> simp [wfFrom] at hwf
+  | pick N =>
+    cases p with
+    | true => simp [wfFrom] at hwf
+    | false =>
+      simp only [wfFrom, Bool.and_eq_true, decide_eq_true_eq] at hwf
+      have e := rrFetchAdd_eq N hwf.1 s.core l.core hd
+      refine ⟨?_, true, hwf.2, fun hc => (by cases hc), fun _ => ⟨s.core.total % N, ?_⟩⟩
+      · show (rrFetchAdd N s.core l.core).2.dead = false
+        rw [e]; exact hd
+      · show (rrFetchAdd N s.core l.core).2.picks = l.targets.map (·.1) ++ [s.core.total % N]
+        rw [e]; simp only; rw [h0 rfl]
+  | ringRead =>
+    cases p with
+    | false => simp [wfFrom] at hwf
+    | true =>
+      simp only [wfFrom] at hwf
+      obtain ⟨i, hi⟩ := h1 rfl
+      have hl : l.core.picks.getLast? = some i := by rw [hi]; simp
+      refine ⟨?_, false, hwf, fun _ => ?_, fun hc => by cases hc⟩
+      · simp only [TOp.sem, ringRead, hl]; exact hd
+      · simp only [TOp.sem, ringRead, hl, List.map_append, List.map_cons, List.map_nil]; exact hi
+  | scanBegin a =>
+    cases p with
+    | true => simp [wfFrom] at hwf
+    | false => exact ⟨hd, false, by simpa [wfFrom] using hwf, h0, fun hc => by cases hc⟩
+  | tableRead =>
+    cases p with
+    | true => simp [wfFrom] at hwf
+    | false => exact ⟨hd, false, by simpa [wfFrom] using hwf, h0, fun hc => by cases hc⟩
+  | scanIter =>
+    cases p with
+    | true => simp [wfFrom] at hwf
+    | false =>
+      have hwf' : wfFrom false rest = true := by simpa [wfFrom] using hwf
+      have hc := (noncore_frame .scanIter rfl s l).2
+      have ht : (TOp.scanIter.sem s l).2.targets = l.targets := by
+        simp only [TOp.sem, scanIter]
+        repeat' split
+        all_goals rfl
+      refine ⟨?_, false, hwf', fun _ => ?_, fun hc => by cases hc⟩
+      · show (TOp.scanIter.sem s l).2.core.dead = false
+        rw [hc]; exact hd
+      · show (TOp.scanIter.sem s l).2.core.picks = (TOp.scanIter.sem s l).2.targets.map (·.1)
+        rw [hc, ht]; exact h0 rfl
+
+theorem wf_replicate_scanIter (k : Nat) (rest : List TOp) :
+    wfFrom false (List.replicate k .scanIter ++ rest) = wfFrom false rest := by
+  induction k with
+  | zero => rfl
+  | succ k ih => rw [List.replicate_succ, List.cons_append]; simp only [wfFrom]; exact ih
+
+theorem wf_requests (N n : Nat) (hN : 0 < N) (as : List Addr) : wfFrom false (as.flatMap (requestOps N n)) = true := by
+  induction as with
+  | nil => rfl
+  | cons a as ih =>
+    rw [List.flatMap_cons]
+    unfold requestOps
+    simp only [List.cons_append, List.nil_append, wfFrom, hN, decide_true, Bool.true_and]
+    rw [wf_replicate_scanIter]; exact ih
+
+theorem wf_reader (k : Nat) : wfFrom false (List.replicate k .tableRead) = true := by
+  induction k with
+  | zero => rfl
+  | succ k ih => rw [List.replicate_succ]; simp only [wfFrom]; exact ih
+
+theorem linked_request (N n : Nat) (hN : 0 < N) (as : List Addr) : Linked (requestThread N n as) :=
+  ⟨rfl, false, wf_requests N n hN as, fun _ => rfl, fun hc => by cases hc⟩
+
+theorem linked_reader (k : Nat) : Linked (readerThread k) :=
+  ⟨rfl, false, wf_reader k, fun _ => rfl, fun hc => by cases hc⟩
+
+/-- a finished linked goroutine has read the slot of every index it was handed -/
+theorem linked_finished (t : STh) (h : Linked t) (hf : t.ops = []) : t.loc.core.picks = t.loc.targets.map (·.1) := by
+  obtain ⟨_, p, hwf, h0, _⟩ := h
+  rw [hf] at hwf
+  cases p with
+  | true => simp [wfFrom] at hwf
+  | false => exact h0 rfl
+
+
 end Fabio.Lemmas.C06
